@@ -6,7 +6,9 @@ from vlib.core import Divergence
 MODELS = {'PREM': PREM, 'CMC': CoreMantleCrustModel}
 # endpoints (x, y, z) with z relative to the surface; 5 and 6 lie above it
 ENDPOINTS = {1: (0.0, 0.0, 0.0), 2: (0.0, 0.0, -1000.0), 3: (300.0, 400.0, -2000.0), 4: (1e5, -2e5, -3000.0),
-             5: (0.0, 0.0, 100.0), 6: (-700.0, 2400.0, 2500.0)}
+             5: (0.0, 0.0, 100.0), 6: (-700.0, 2400.0, 2500.0),
+             7: (-1.5e5, 0.0, -2000.0), 8: (-1.2e5, -9.0e4, -4500.0)}     # far off the axis (the local vertical is not the radial direction),
+             # placed so that the base azimuth (3, 4) heads back towards the axis: a locally horizontal chord then dips below its start
 # zenith angle (degrees from straight up) of the chord direction: index 3 is horizontal
 ZEN = [0.0, 60.0, 85.0, 90.0, 90.5, 91.0, 95.0, 120.0, 150.0, 180.0]
 AZ = (3.0, 4.0)        # base azimuth (3,4,5 triangle)
